@@ -141,6 +141,10 @@ def gen_dataset(rng, i):
     ids = {"int": [3, 0, 7, 11, -2], "str": ["b", "a", "ctl", "zz", "A"], "bool": [False, True]}[idkind][:nv]
     sizes = [rng.choice([2, 3, 5, 40, 400]) for _ in ids]
     mode = ("plain", "offset", "ties", "bigint", "tiny")[i % 5]
+    if i % 11 == 5:
+        # > 65536 rows in total: engines split the table into batches (small integer values keep the exact side cheap)
+        sizes = [70000 // len(ids) + rng.randint(1, 999) for _ in ids]
+        mode = "ties"
     variant, cols = [], {"x": [], "y": [], "k": []}
     nprng = np.random.default_rng(rng.randint(0, 2**31))
     for v, sz in zip(ids, sizes):
@@ -288,7 +292,7 @@ def main():
     q = chk.tier == "quick"
     mism = structural(chk, 40 if q else 400)
     evaluate_captured(chk, mism)
-    kinds = ("pandas", "polars", "polars-lazy", "pyarrow", "ibis-sqlite")
+    kinds = ("pandas", "polars", "polars-lazy", "pyarrow", "pyarrow-chunked", "ibis-sqlite")
     float_mode(chk, 15 if q else 150, kinds)
     chk.cov["rule"] = ("structural: random column requests (duplicates, reversed pairs, empty subsets) x grouped/ungrouped x "
                        "int/float columns x {narwhals, ibis native, ibis fallback}; float: 1-5 variants (int/str/bool ids), "
